@@ -2304,6 +2304,11 @@ func (x *actorSystem) handleRemoteAsk(ctx context.Context, to *PID, message any,
 		err = errors.Join(ctx.Err(), gerrors.ErrRequestTimeout)
 		to.handleReceivedErrorWithMessage(noSender, message, err)
 		timers.Put(timer)
+		if !receiveContext.responseClosed.CompareAndSwap(false, true) {
+			// The responder already claimed the reply slot and may still be
+			// sending on the channel: it must not be handed to a later Ask.
+			return nil, err
+		}
 		receiveContext.responseClosed.Store(true)
 		putResponseChannel(responseCh)
 		return nil, err
@@ -2311,6 +2316,11 @@ func (x *actorSystem) handleRemoteAsk(ctx context.Context, to *PID, message any,
 		err = gerrors.ErrRequestTimeout
 		to.handleReceivedErrorWithMessage(noSender, message, err)
 		timers.Put(timer)
+		if !receiveContext.responseClosed.CompareAndSwap(false, true) {
+			// The responder already claimed the reply slot and may still be
+			// sending on the channel: it must not be handed to a later Ask.
+			return nil, err
+		}
 		receiveContext.responseClosed.Store(true)
 		putResponseChannel(responseCh)
 		return
